@@ -22,8 +22,9 @@ import (
 // ---- script ------------------------------------------------------------------------------------------------------
 
 type deployScript struct {
-	Fail    bool `json:"fail"`
-	DelayMS int  `json:"delay_ms"`
+	Fail     bool   `json:"fail"`
+	DelayMS  int    `json:"delay_ms"`
+	WaitGate string `json:"wait_gate"` // Deploy blocks until the harness releases this gate (or the context ends)
 	// Connection faults (used for schema probes and start failures)
 	FailRead  bool `json:"fail_read"`  // reads fail immediately (schema cannot be read)
 	FailWrite bool `json:"fail_write"` // writes fail (bad connection)
@@ -205,6 +206,12 @@ func (c *scriptedConnector) Deploy(ctx context.Context, src string) (deployer.Pl
 	if ds.DelayMS > 0 {
 		select {
 		case <-time.After(time.Duration(ds.DelayMS) * time.Millisecond):
+		case <-ctx.Done():
+		}
+	}
+	if ds.WaitGate != "" {
+		select {
+		case <-book.gateChan(ds.WaitGate):
 		case <-ctx.Done():
 		}
 	}
